@@ -130,16 +130,16 @@ def moduleFactoryFactory(factory):
         kwargs_tuple = tuple(kwargs.items())
 
         try:
-            return moduleCache[name][args][kwargs_tuple]
+            return moduleCache[baseModule][args][kwargs_tuple]
         except KeyError:
             mod = ModuleType(name)
             objs = factory(baseModule, *args, **kwargs)
             mod.__dict__.update(objs)
-            if name not in moduleCache:
-                moduleCache[name] = {}
-            if args not in moduleCache[name]:
-                moduleCache[name][args] = {}
-            moduleCache[name][args][kwargs_tuple] = mod
+            if baseModule not in moduleCache:
+                moduleCache[baseModule] = {}
+            if args not in moduleCache[baseModule]:
+                moduleCache[baseModule][args] = {}
+            moduleCache[baseModule][args][kwargs_tuple] = mod
             return mod
 
     return moduleFactory
